@@ -238,4 +238,122 @@ def check_C18(tier, seed, replay=None):
         b.cleanup()
 
 
-CHECKS = {"C20": check_C20, "C18": check_C18}
+# ------------------------------------------------------------------ C14
+def alloc_variants(fl):
+    return [Variant("def", flavour=fl, knobs=True), Variant("ts", mmc=0, mzdcache=0, flavour=fl, knobs=True),
+            Variant("mmconly", mmc=1, mzdcache=0, flavour=fl, knobs=True), Variant("nosse", sse2=0, flavour=fl, knobs=True)]
+
+
+def build_alloc(b, flavours=("asan", "plain")):
+    exes, allv = [], []
+    for fl in flavours:
+        vs = [Variant(v.name + ("_p" if fl == "plain" else ""), sse2=v.sse2, mmc=v.mmc, mzdcache=v.mzdcache, flavour=fl, knobs=True) for v in alloc_variants(fl)]
+        b.build_variants(vs)
+        exes.append(b.build_engine("alloc_" + fl, ["gen.c", "eng/engutil.c", "eng/alloc.c"], vs, fl))
+        allv += vs
+    return exes, allv
+
+
+def which_exe(exes, path):
+    """asan/plain executables use different variant names (suffix _p): pick by the program's lib line"""
+    try:
+        txt = open(path).read()
+    except OSError:
+        return exes[0]
+    for l in txt.split("\n"):
+        if l.startswith("lib "):
+            return exes[1] if l.strip().endswith("_p") and len(exes) > 1 else exes[0]
+    return exes[0]
+
+
+def check_C14(tier, seed, replay=None):
+    t0 = time.time()
+    rep = Report("C14")
+    b = Builder()
+    try:
+        exes, vs = build_alloc(b)
+        if replay:
+            r = exec_prog(which_exe(exes, replay), replay)
+            print(r.get("raw"))
+            ok = r.get("cls", "") == "ok"
+            if not ok:
+                print("VIOLATION property=C14 replay=%s" % replay)
+            return 0 if ok else 1
+        total = 1600 if tier == "quick" else 40000
+        outdir = os.path.join(b.scratch, "out")
+        lines, crashes = fanout(exes, seed, total, tier, outdir, 60 if tier == "quick" else 1300)
+        for c in crashes:
+            rep.harness("alloc worker %d exited with %d: %s" % (c["worker"], c["rc"], c["tail"][-3:]))
+        hashes, vl, probes, classes = [], [], {}, {}
+        steps = states = transitions = 0
+        bitmap = 0
+        for w, l in lines:
+            tag, d = kv(l)
+            if tag == "R":
+                hashes.append((int(d["idx"]), d["hash"]))
+                classes[d["class"]] = classes.get(d["class"], 0) + 1
+            elif tag == "T":
+                steps += int(d["steps"]); transitions += int(d["transitions"])
+                for kk, v in d.items():
+                    if kk.startswith("p."):
+                        probes[kk[2:]] = probes.get(kk[2:], 0) + int(v)
+            elif tag == "M":
+                bitmap |= int(l[2:].strip() or "0", 16)
+            elif tag == "V":
+                vl.append(d)
+        states = bin(bitmap).count("1")
+        if not hashes:
+            rep.harness("no run")
+        if classes.get("SKIPPED", 0) > len(hashes) // 20:
+            rep.harness("generator produced %d invalid programs" % classes["SKIPPED"])
+        stuck = sorted(k for k, v in probes.items() if v == 0)
+        if tier == "thorough" and stuck:
+            rep.harness("reach probes stuck at zero: %s" % stuck)
+
+        def sig(v, sym):
+            return "alloc|%s|%s" % (v.get("scen"), v.get("class"))
+        # group by exe so that replays run on the flavour that found them
+        for exe in exes:
+            mine = [v for v in vl if which_exe(exes, v["file"]) == exe]
+            if mine:
+                process_violations(rep, exe, mine, None, outdir, seed, sig,
+                                   keep_pred=lambda l: l.startswith("#") or l.startswith("lib ") or l.startswith("world"))
+        samples = []
+        per = (total + driver.NWORKERS - 1) // driver.NWORKERS
+        for w in (0, 1, 6):
+            p = os.path.join(outdir, "cur-%d.prog" % (w * per))
+            if os.path.exists(p):
+                txt = open(p).read().split("\n")
+                samples.append("\n".join(txt[:40]) + ("\n... (%d lines)" % len(txt) if len(txt) > 40 else ""))
+        wall = time.time() - t0
+        nontrivial = len(set(h for i, h in hashes))
+        cov = dict(
+            evaluations=len(hashes), distinct_nontrivial=nontrivial,
+            rule="one evaluation = one seeded allocation history (program of init/window/free/fill/touch/reinit steps) executed in a forked process against the reference model; "
+                 "distinct = distinct event-log hashes (the log records the ledger level and live header count after every step), non-trivial = at least one step executed",
+            samples=samples, steps=steps, outcome_classes=classes,
+            states=states, transitions=transitions,
+            state_measure="abstract allocator state = (occupied block-cache slots 0..16 read from the library's cache array, heap header blocks 0..16 and fallback headers seen in the ledger, "
+                          "live-header bucket {0,<64,64,<=128,<=1024,>1024}); transitions = distinct (state,state') pairs (hashed)",
+            fault_kinds_fired={"recycled block handed out with stale/garbage content": probes.get("recycled_dirty_block_handed_out", 0),
+                               "dirty fill of fresh blocks (0xFF, 0xA5, random words, small indices, stale)": steps},
+            reach_probes=probes, probes_stuck_at_zero=stuck,
+            runs_per_hour=int(len(hashes) / max(wall, 1e-3) * 3600), seeds_per_hour=int(len(hashes) / max(wall, 1e-3) * 3600),
+            simulated_time="not applicable: no clock in this property",
+            run_hash_digest=digest(hashes), variants=[v.describe() for v in vs], source_sha256=b.sha,
+            real_components=["mzd_init/mzd_init_window/mzd_free, header pool, block cache, m4ri_init/fini and the arithmetic used by touch steps"],
+            simulated_components=["heap front end: exact-size LIFO/FIFO/random recycling, dirty fill, ledger (plain flavour); ledger over ASan's allocator (asan flavour)"])
+        write_evidence("C14", tier, seed, "exploration", cov,
+                       ["content of live matrices is compared with the model completely every 64 steps and at the end, and for 6 random live owners after every step",
+                        "the harness reads the library's global block-cache array for coverage only (never writes it)"],
+                       wall, len(rep.violations))
+        print("C14 %s: %d histories, %d steps, classes %s, %d abstract states, %d transitions, %.1fs" % (tier, len(hashes), steps, classes, states, transitions, wall))
+        return rep.exit_code()
+    except BuildError as e:
+        print("HARNESS-ERROR: build failed: %s" % e)
+        return 2
+    finally:
+        b.cleanup()
+
+
+CHECKS = {"C20": check_C20, "C18": check_C18, "C14": check_C14}
